@@ -547,6 +547,8 @@ func runC15(c *Ctx) {
 		"cfg * list (N * doc) * N * N * server * faults * observed", "chk_startup", cs, rs, 60)
 	// "after the bounded retries on re-open": the retry loop of reopenStream against Model/Retry.v
 	runC12Retry(c)
+	// the real file backend with files that cannot serve the assignment
+	runC15File(c)
 }
 
 // runC02Wire drives the real cbMetadata (xattr checkpoint documents) against the simulated node.
